@@ -94,6 +94,7 @@ macro_rules! vec_era {
             };
             let mut pp = $m::pp();
             pp.max_tx_ex_units = exu(kani::any(), kani::any());
+            pp.max_block_ex_units = exu(kani::any(), kani::any()); // independent of the per-transaction limit
             let r = $hook(&tx, &pp);
             conclude!($n, r, sm, ss, pp.max_tx_ex_units);
             core::mem::forget(r);
@@ -156,6 +157,7 @@ macro_rules! conway_list {
             };
             let mut pp = co::pp();
             pp.max_tx_ex_units = exu(kani::any(), kani::any());
+            pp.max_block_ex_units = exu(kani::any(), kani::any()); // independent of the per-transaction limit
             let r = conway::verif_hooks::check_tx_ex_units(&tx, &pp);
             conclude!($n, r, sm, ss, pp.max_tx_ex_units);
             core::mem::forget(r);
@@ -193,6 +195,7 @@ fn c37_q_conway_map0() {
     };
     let mut pp = co::pp();
     pp.max_tx_ex_units = exu(kani::any(), kani::any());
+            pp.max_block_ex_units = exu(kani::any(), kani::any()); // independent of the per-transaction limit
     let r = conway::verif_hooks::check_tx_ex_units(&tx, &pp);
     conclude!(0, r, 0, 0, pp.max_tx_ex_units);
     core::mem::forget(r);
@@ -209,6 +212,7 @@ fn c37_q_presence() {
     let raw = [0u8; 1];
     let mut pp = co::pp();
     pp.max_tx_ex_units = exu(kani::any(), kani::any());
+            pp.max_block_ex_units = exu(kani::any(), kani::any()); // independent of the per-transaction limit
     let with_script: bool = kani::any();
     let mut w = co::wits();
     if with_script {
@@ -247,6 +251,7 @@ fn c37_v_twin() {
     };
     let mut pp = al::pp();
     pp.max_tx_ex_units = exu(kani::any(), kani::any());
+            pp.max_block_ex_units = exu(kani::any(), kani::any()); // independent of the per-transaction limit
     let r = alonzo::verif_hooks::check_tx_ex_units(&tx, &pp);
     assert!(r.is_ok(), "twin: must fail");
     core::mem::forget(r);
